@@ -124,10 +124,11 @@ fn signature(case: &Case) -> Option<String> {
                 _ => {}
             }
         }
-        if !case.streaming && case.cols.iter().any(|c| c.kt.is_nested()) {
+        if !case.streaming && case.cols.len() > 1 {
             // F5: an EmitFirst while two or more hash values are each shared by two or more distinct keys
-            // (only nested columns produce equal hashes for distinct keys: NULL / empty list, skipped NULL
-            // elements). Over-approximated on the keys interned since the store was last emptied.
+            // (NULLs are skipped when row hashes are combined, so (x, NULL, v) / (x, v, NULL), a NULL / empty
+            // list, or skipped NULL list elements give equal hashes for distinct keys). Over-approximated
+            // on the keys interned since the store was last emptied.
             let mut keys: Vec<Key> = vec![];
             for op in &case.ops {
                 match op {
